@@ -173,6 +173,16 @@ class Index:
         # new private procedures are opened at their call sites (core/canon.py: inline_procedures)
         self.propagated = canon.propagate_constants(self)
         self.inlined = canon.inline_procedures(self)
+        # helpers of which no call is left anywhere: every use was opened in place
+        opened = {h for hs in self.inlined.values() for h in hs}
+        self.fully_opened = set()
+        for f in self.all_functions():
+            if f.qual in opened:
+                left = any(isinstance(n, (ast.Attribute, ast.Name)) and (getattr(n, "attr", None) == f.name or getattr(n, "id", None) == f.name)
+                           for m_ in self.modules.values() for n in ast.walk(m_.tree)
+                           if not isinstance(n, (ast.FunctionDef,)))
+                if not left:
+                    self.fully_opened.add(f.site)
         self.opened = canon.open_expression_helpers(self)
         self.scalarised = canon.scalarise_last_lists(self)
         self.sums = canon.desugar_sums(self)
@@ -477,6 +487,37 @@ class Index:
         return out
 
 
+class _Fold(ast.NodeTransformer):
+    """Constant folding after a row of a literal table has been substituted for the loop variables: getattr(x, "name") is
+    x.name, a conditional expression with a constant test is its branch, `<constant> is None` is a constant."""
+    def visit_Call(self, n):
+        self.generic_visit(n)
+        if isinstance(n.func, ast.Name) and n.func.id == "getattr" and len(n.args) == 2 and not n.keywords and \
+                isinstance(n.args[1], ast.Constant) and isinstance(n.args[1].value, str) and n.args[1].value.isidentifier():
+            return ast.copy_location(ast.Attribute(value=n.args[0], attr=n.args[1].value, ctx=ast.Load()), n)
+        return n
+
+    def visit_Compare(self, n):
+        self.generic_visit(n)
+        if len(n.ops) == 1 and isinstance(n.left, ast.Constant) and isinstance(n.comparators[0], ast.Constant) and \
+                n.comparators[0].value is None and isinstance(n.ops[0], (ast.Is, ast.IsNot)):
+            v = n.left.value is None
+            return ast.copy_location(ast.Constant(value=v if isinstance(n.ops[0], ast.Is) else not v), n)
+        return n
+
+    def visit_UnaryOp(self, n):
+        self.generic_visit(n)
+        if isinstance(n.op, ast.Not) and isinstance(n.operand, ast.Constant) and isinstance(n.operand.value, bool):
+            return ast.copy_location(ast.Constant(value=not n.operand.value), n)
+        return n
+
+    def visit_IfExp(self, n):
+        self.generic_visit(n)
+        if isinstance(n.test, ast.Constant):
+            return n.body if n.test.value else n.orelse
+        return n
+
+
 def _eval_members(self, init, flow_of, literals):
     """Evaluate the member dictionary handed to super().__init__() symbolically: dict literals, **-splices, update(),
     |=, constant-key stores, `if` statements (presence conditions), conditional expressions, loops over literal tables,
@@ -543,8 +584,8 @@ def _eval_members(self, init, flow_of, literals):
             out = []
             for e in lit.elts:
                 m = {t.id: v for t, v in zip(tg.elts, e.elts)}
-                k_, v_ = (ast.fix_missing_locations(_Sub(m).visit(copy.deepcopy(x))) for x in kv)
-                rc = conds + tuple((ir.from_ast(ast.fix_missing_locations(_Sub(m).visit(copy.deepcopy(t))), {}), True) for t in g.ifs)
+                k_, v_ = (ast.fix_missing_locations(_Fold().visit(_Sub(m).visit(copy.deepcopy(x)))) for x in kv)
+                rc = conds + tuple((ir.from_ast(ast.fix_missing_locations(_Fold().visit(_Sub(m).visit(copy.deepcopy(t)))), {}), True) for t in g.ifs)
                 key = k_.value if isinstance(k_, ast.Constant) and isinstance(k_.value, str) else enum_value(k_)
                 fl = flow_of(v_)
                 if key is None or fl is None:
@@ -578,8 +619,14 @@ def _eval_members(self, init, flow_of, literals):
 
     def run(stmts, conds):
         nonlocal literals
-        for st in stmts:
+        for i_, st in enumerate(stmts):
             if not state["ok"]:
+                return
+            if isinstance(st, ast.If) and not st.orelse and st.body and isinstance(st.body[-1], ast.Continue):
+                # a guard clause of an unrolled row: the rest of the row runs under the negated condition
+                c = ir.from_ast(st.test, {})
+                run(st.body[:-1], conds + ((c, True),))
+                run(stmts[i_ + 1:], conds + ((c, False),))
                 return
             if isinstance(st, ast.If):
                 c = ir.from_ast(st.test, {})
@@ -592,7 +639,7 @@ def _eval_members(self, init, flow_of, literals):
                         all(isinstance(e, (ast.Tuple, ast.List)) and len(e.elts) == len(st.target.elts) for e in lit.elts):
                     for e in lit.elts:
                         m = {t.id: v for t, v in zip(st.target.elts, e.elts)}
-                        run([ast.fix_missing_locations(_Sub(m).visit(copy.deepcopy(b))) for b in st.body], conds)
+                        run([ast.fix_missing_locations(_Fold().visit(_Sub(m).visit(copy.deepcopy(b)))) for b in st.body], conds)
                     continue
                 if mentions_tracked(st) or any(isinstance(n, ast.Dict) for n in ast.walk(st)):
                     state["ok"] = False
